@@ -110,6 +110,8 @@ def mask_vcs(env, want):
     out = []
 
     def on(c):
+        if env.get('bare') and c in (C_SRC, C_DEPTHS):
+            return False      # an input without provenance: the provenance clauses have nothing to say
         return want is None or any(p in want for p in c.props)
 
     if mode in ('order', 'zero', 'maskmask'):
@@ -274,7 +276,7 @@ def law_vcs(env, on):
     return out
 
 
-def make_runner(shape, nnames=1, mode='mask', want=None, hide=True, perm=None):
+def make_runner(shape, nnames=1, mode='mask', want=None, hide=True, perm=None, bare=False):
     I = Interp()
     from vf import world as _world
     _world.install_externals(I, {})     # eval(expression, f.__globals__) is the uninterpreted evalin
@@ -290,6 +292,10 @@ def make_runner(shape, nnames=1, mode='mask', want=None, hide=True, perm=None):
 
     def run(ctx, r):
         info = mk_sig(I, ctx, 's', shape)
+        if bare:
+            from vf.harness import strip_provenance
+            strip_provenance(info)      # a signature assembled by hand / an upgraded plain inspect.Signature
+        env['bare'] = bare
         env['info'] = info
         env['r'] = r
         r.inputs = [info]
@@ -343,7 +349,7 @@ vcs = mask_vcs
 def _concrete_case(env, conc):
     from vf.concrete import sig_str
     info = env['info']
-    sig = conc.build_sig(info)
+    sig = conc.build_input(info)
     n = conc.integer(env['n'])
     names = [conc.name(x) for x in env['names']]
     flags = {}
